@@ -1,12 +1,726 @@
 package main
 
+// Lock-discipline extraction for C15: for every access to a field of one of
+// the shared structs, record the enclosing function, whether it is a write,
+// how it is performed (plain / atomic method / lock method), and the set of
+// mutexes that are syntactically held at that point.  Purely syntactic
+// (go/ast), deliberately conservative: a field access on an expression whose
+// struct type cannot be inferred is recorded with struct "?" and fails the
+// Lean obligation unless the field name is unused by every tracked struct.
+
 import (
+	"fmt"
 	"go/ast"
 	"go/token"
+	"sort"
+	"strings"
 )
 
-// lockTable is filled in by the C15 machinery (see locks_table.go once it
-// exists); until then it produces an empty table.
+var trackedStructs = []string{
+	"tunnelChannel", "tunnelClientStream", "tunnelServer", "tunnelServerStream",
+	"defaultSender", "defaultReceiver", "noFlowControlReceiver", "noFlowControlSender",
+	"reverseChannels", "TunnelServiceHandler", "ReverseTunnelServer",
+	"threadSafeOpenTunnelClient", "threadSafeOpenReverseTunnelServer",
+	"threadSafeOpenReverseTunnelClient", "threadSafeOpenTunnelServer",
+}
+
+type access struct {
+	strct, field, fn string
+	line             int
+	write            bool
+	how              string // plain | atomic | lockop | chan
+	held             []string
+	inLiteral        bool
+}
+
+type structInfo struct {
+	fields map[string]string // field -> type name (element type for pointers/maps/slices)
+}
+
+func baseTypeName(e ast.Expr) string {
+	switch t := e.(type) {
+	case *ast.Ident:
+		return t.Name
+	case *ast.StarExpr:
+		return baseTypeName(t.X)
+	case *ast.SelectorExpr:
+		return t.Sel.Name
+	case *ast.ArrayType:
+		return baseTypeName(t.Elt)
+	case *ast.MapType:
+		return baseTypeName(t.Value)
+	case *ast.IndexExpr:
+		return baseTypeName(t.X)
+	case *ast.ChanType:
+		return "chan"
+	case *ast.FuncType:
+		return "func"
+	}
+	return ""
+}
+
 func lockTable(fset *token.FileSet, files []*ast.File) string {
-	return "namespace TunnelModel.Generated\nend TunnelModel.Generated\n"
+	tracked := map[string]bool{}
+	for _, s := range trackedStructs {
+		tracked[s] = true
+	}
+	structs := map[string]*structInfo{}
+	for _, f := range files {
+		for _, d := range f.Decls {
+			gd, ok := d.(*ast.GenDecl)
+			if !ok || gd.Tok != token.TYPE {
+				continue
+			}
+			for _, sp := range gd.Specs {
+				ts := sp.(*ast.TypeSpec)
+				st, ok := ts.Type.(*ast.StructType)
+				if !ok || !tracked[ts.Name.Name] {
+					continue
+				}
+				si := &structInfo{fields: map[string]string{}}
+				for _, fl := range st.Fields.List {
+					tn := baseTypeName(fl.Type)
+					if sel, ok := fl.Type.(*ast.SelectorExpr); ok {
+						tn = exprString(sel.X) + "." + sel.Sel.Name
+					}
+					if ix, ok := fl.Type.(*ast.IndexExpr); ok {
+						if sel, ok := ix.X.(*ast.SelectorExpr); ok {
+							tn = exprString(sel.X) + "." + sel.Sel.Name // atomic.Pointer[T]
+						}
+					}
+					if len(fl.Names) == 0 {
+						si.fields[baseTypeName(fl.Type)] = tn // embedded
+					}
+					for _, n := range fl.Names {
+						si.fields[n.Name] = tn
+					}
+				}
+				structs[ts.Name.Name] = si
+			}
+		}
+	}
+	var accs []access
+	for _, f := range files {
+		for _, d := range f.Decls {
+			fd, ok := d.(*ast.FuncDecl)
+			if !ok || fd.Body == nil {
+				continue
+			}
+			env := map[string]string{}
+			fname := fd.Name.Name
+			if fd.Recv != nil && len(fd.Recv.List) > 0 {
+				rt := baseTypeName(fd.Recv.List[0].Type)
+				fname = rt + "." + fname
+				for _, n := range fd.Recv.List[0].Names {
+					env[n.Name] = rt
+				}
+			}
+			for _, p := range fd.Type.Params.List {
+				tn := baseTypeName(p.Type)
+				for _, n := range p.Names {
+					env[n.Name] = tn
+				}
+			}
+			w := &walker{fset: fset, structs: structs, tracked: tracked, env: env, fn: fname, accs: &accs}
+			w.block(fd.Body.List, nil)
+		}
+	}
+	// ---- interprocedural pass ----
+	funcs := map[string]bool{}
+	for _, a := range accs {
+		funcs[a.fn] = true
+	}
+	for _, c := range callSites {
+		funcs[c.caller] = true
+		funcs[c.callee] = true
+	}
+	// entryHeld[fn]: locks held at EVERY call site of fn inside the package (nil = not yet known / top)
+	entry := map[string]map[string]bool{}
+	hasSite := map[string]bool{}
+	for _, c := range callSites {
+		hasSite[c.callee] = true
+	}
+	for f := range funcs {
+		if !hasSite[f] {
+			entry[f] = map[string]bool{}
+		}
+	}
+	for iter := 0; iter < 20; iter++ {
+		changed := false
+		for f := range funcs {
+			if !hasSite[f] {
+				continue
+			}
+			var inter map[string]bool
+			known := false
+			for _, c := range callSites {
+				if c.callee != f {
+					continue
+				}
+				ce, ok := entry[c.caller]
+				if c.async {
+					ce, ok = map[string]bool{}, true
+				}
+				if !ok {
+					continue // caller's entry set still unknown: skip for now
+				}
+				known = true
+				cur := map[string]bool{}
+				for l := range ce {
+					cur[l] = true
+				}
+				for _, l := range c.held {
+					cur[l] = true
+				}
+				if inter == nil {
+					inter = cur
+				} else {
+					for l := range inter {
+						if !cur[l] {
+							delete(inter, l)
+						}
+					}
+				}
+			}
+			if known {
+				old, had := entry[f]
+				if !had || len(old) != len(inter) {
+					entry[f] = inter
+					changed = true
+				}
+			}
+		}
+		if !changed {
+			break
+		}
+	}
+	for i := range accs {
+		for l := range entry[accs[i].fn] {
+			found := false
+			for _, h := range accs[i].held {
+				if h == l {
+					found = true
+				}
+			}
+			if !found {
+				accs[i].held = append(accs[i].held, l)
+			}
+		}
+	}
+	// transitive acquisitions and lock-order edges through calls
+	trans := map[string]map[string]bool{}
+	for f := range funcs {
+		trans[f] = map[string]bool{}
+		for l := range directAcquires[f] {
+			trans[f][l] = true
+		}
+	}
+	for iter := 0; iter < 20; iter++ {
+		changed := false
+		for _, c := range callSites {
+			for l := range trans[c.callee] {
+				if !trans[c.caller][l] {
+					trans[c.caller][l] = true
+					changed = true
+				}
+			}
+		}
+		if !changed {
+			break
+		}
+	}
+	for _, c := range callSites {
+		hs := map[string]bool{}
+		for _, h := range c.held {
+			hs[h] = true
+		}
+		if !c.async {
+			for h := range entry[c.caller] {
+				hs[h] = true
+			}
+		}
+		for h := range hs {
+			for l := range trans[c.callee] {
+				if h != l {
+					lockEdges = append(lockEdges, [2]string{h, l})
+				}
+			}
+		}
+	}
+	callSites = nil
+	directAcquires = map[string]map[string]bool{}
+
+	sort.Slice(accs, func(i, j int) bool {
+		a, b := accs[i], accs[j]
+		if a.strct != b.strct {
+			return a.strct < b.strct
+		}
+		if a.field != b.field {
+			return a.field < b.field
+		}
+		if a.fn != b.fn {
+			return a.fn < b.fn
+		}
+		return a.line < b.line
+	})
+	var b strings.Builder
+	b.WriteString("/- GENERATED by /verif/harness/extract (locks.go) from /repo's Go sources on every check. Do not edit. -/\n")
+	b.WriteString("namespace TunnelModel.Generated\n\n")
+	b.WriteString("structure Access where\n  strct : String\n  field : String\n  fn : String\n  write : Bool\n  how : String\n  held : List String\n  inLiteral : Bool\n  deriving Repr, DecidableEq\n\n")
+	b.WriteString("def accessTable : List Access := [\n")
+	// de-duplicate identical rows (line numbers are not part of the obligation)
+	seen := map[string]bool{}
+	first := true
+	for _, a := range accs {
+		sort.Strings(a.held)
+		row := fmt.Sprintf("  { strct := %q, field := %q, fn := %q, write := %v, how := %q, held := [%s], inLiteral := %v }",
+			a.strct, a.field, a.fn, a.write, a.how, quoteAll(a.held), a.inLiteral)
+		if seen[row] {
+			continue
+		}
+		seen[row] = true
+		if !first {
+			b.WriteString(",\n")
+		}
+		first = false
+		b.WriteString(row)
+	}
+	b.WriteString("\n]\n\n")
+	// lock-order edges: lock B acquired while A is held
+	b.WriteString("def lockOrderEdges : List (String × String) := [\n")
+	edgeSet := map[string]bool{}
+	for _, e := range lockEdges {
+		edgeSet[fmt.Sprintf("  (%q, %q)", e[0], e[1])] = true
+	}
+	var es []string
+	for e := range edgeSet {
+		es = append(es, e)
+	}
+	sort.Strings(es)
+	b.WriteString(strings.Join(es, ",\n"))
+	b.WriteString("\n]\n\nend TunnelModel.Generated\n")
+	lockEdges = nil
+	return b.String()
+}
+
+var lockEdges [][2]string
+
+type callSite struct {
+	caller, callee string
+	held           []string
+	async          bool // `go f(...)`: the callee runs on a new goroutine and inherits no lock
+}
+
+var callSites []callSite
+var directAcquires = map[string]map[string]bool{}
+
+type walker struct {
+	fset    *token.FileSet
+	structs map[string]*structInfo
+	tracked map[string]bool
+	env     map[string]string
+	fn      string
+	accs    *[]access
+}
+
+// typeOf infers the tracked struct type of an expression, or "".
+func (w *walker) typeOf(e ast.Expr) string {
+	switch t := e.(type) {
+	case *ast.Ident:
+		return w.env[t.Name]
+	case *ast.ParenExpr:
+		return w.typeOf(t.X)
+	case *ast.StarExpr:
+		return w.typeOf(t.X)
+	case *ast.UnaryExpr:
+		if t.Op == token.AND {
+			return w.typeOf(t.X)
+		}
+	case *ast.CompositeLit:
+		return baseTypeName(t.Type)
+	case *ast.SelectorExpr:
+		if st := w.typeOf(t.X); st != "" {
+			if si := w.structs[st]; si != nil {
+				return si.fields[t.Sel.Name]
+			}
+		}
+	case *ast.IndexExpr:
+		return w.typeOf(t.X)
+	case *ast.CallExpr:
+		// conversion (*tunnelServerStream)(st)
+		if p, ok := t.Fun.(*ast.ParenExpr); ok {
+			return baseTypeName(p.X)
+		}
+		if id, ok := t.Fun.(*ast.Ident); ok {
+			switch id.Name {
+			case "newTunnelChannel", "newReverseChannel":
+				return "tunnelChannel"
+			case "newReverseChannels":
+				return "reverseChannels"
+			}
+		}
+		if sel, ok := t.Fun.(*ast.SelectorExpr); ok {
+			switch sel.Sel.Name {
+			case "reverseChannelsForKey":
+				return "reverseChannels"
+			case "newStream", "allocateStream":
+				return "tunnelClientStream"
+			case "getStream":
+				if w.typeOf(sel.X) == "tunnelChannel" {
+					return "tunnelClientStream"
+				}
+				return "tunnelServerStream"
+			}
+		}
+	case *ast.TypeAssertExpr:
+		return baseTypeName(t.Type)
+	}
+	return ""
+}
+
+func lockName(strct, field string) string { return strct + "." + field }
+
+func isMutexType(t string) bool {
+	return t == "sync.Mutex" || t == "sync.RWMutex"
+}
+
+// block walks statements in order with the set of held locks.
+func (w *walker) block(stmts []ast.Stmt, held []string) []string {
+	for _, s := range stmts {
+		held = w.stmt(s, held)
+	}
+	return held
+}
+
+func without(held []string, l string) []string {
+	var out []string
+	for _, h := range held {
+		if h != l {
+			out = append(out, h)
+		}
+	}
+	return out
+}
+
+// lockCall recognises x.mu.Lock() etc.; returns lock name and op.
+func (w *walker) lockCall(e ast.Expr) (string, string) {
+	call, ok := e.(*ast.CallExpr)
+	if !ok {
+		return "", ""
+	}
+	sel, ok := call.Fun.(*ast.SelectorExpr)
+	if !ok {
+		return "", ""
+	}
+	op := sel.Sel.Name
+	if op != "Lock" && op != "Unlock" && op != "RLock" && op != "RUnlock" {
+		return "", ""
+	}
+	inner, ok := sel.X.(*ast.SelectorExpr)
+	if !ok {
+		return "", ""
+	}
+	st := w.typeOf(inner.X)
+	if st == "" || w.structs[st] == nil || !isMutexType(w.structs[st].fields[inner.Sel.Name]) {
+		return "", ""
+	}
+	return lockName(st, inner.Sel.Name), op
+}
+
+func (w *walker) stmt(s ast.Stmt, held []string) []string {
+	switch t := s.(type) {
+	case *ast.ExprStmt:
+		if l, op := w.lockCall(t.X); l != "" {
+			w.record(t.X.(*ast.CallExpr).Fun.(*ast.SelectorExpr).X, false, held, "lockop")
+			switch op {
+			case "Lock", "RLock":
+				if directAcquires[w.fn] == nil {
+					directAcquires[w.fn] = map[string]bool{}
+				}
+				directAcquires[w.fn][l] = true
+				for _, h := range held {
+					lockEdges = append(lockEdges, [2]string{h, l})
+				}
+				return append(append([]string{}, held...), l)
+			default:
+				return without(held, l)
+			}
+		}
+		w.expr(t.X, held, false)
+	case *ast.DeferStmt:
+		if l, op := w.lockCall(t.Call); l != "" && (op == "Unlock" || op == "RUnlock") {
+			_ = l // stays held until the function returns
+			return held
+		}
+		if fl, ok := t.Call.Fun.(*ast.FuncLit); ok {
+			// deferred closure: runs at return; locks held at that point are unknown: assume those deferred-unlocked are released (conservative: none held)
+			w.funcLit(fl, nil)
+		} else {
+			w.expr(t.Call, held, false)
+		}
+	case *ast.GoStmt:
+		if fl, ok := t.Call.Fun.(*ast.FuncLit); ok {
+			w.funcLit(fl, nil) // a new goroutine holds nothing
+			for _, a := range t.Call.Args {
+				w.expr(a, held, false)
+			}
+		} else {
+			n := len(callSites)
+			w.expr(t.Call, held, false)
+			for i := n; i < len(callSites); i++ {
+				callSites[i].async = true
+				callSites[i].held = nil
+			}
+		}
+	case *ast.AssignStmt:
+		for _, r := range t.Rhs {
+			w.expr(r, held, false)
+		}
+		for i, l := range t.Lhs {
+			if t.Tok == token.DEFINE || t.Tok == token.ASSIGN {
+				if id, ok := l.(*ast.Ident); ok {
+					var rhs ast.Expr
+					if len(t.Rhs) == len(t.Lhs) {
+						rhs = t.Rhs[i]
+					} else if len(t.Rhs) == 1 && i == 0 {
+						rhs = t.Rhs[0]
+					}
+					if rhs != nil {
+						if ty := w.typeOf(rhs); ty != "" {
+							w.env[id.Name] = ty
+						}
+					}
+					continue
+				}
+			}
+			w.expr(l, held, true)
+		}
+	case *ast.IncDecStmt:
+		w.expr(t.X, held, true)
+	case *ast.SendStmt:
+		w.expr(t.Chan, held, false)
+		w.expr(t.Value, held, false)
+	case *ast.ReturnStmt:
+		for _, r := range t.Results {
+			w.expr(r, held, false)
+		}
+	case *ast.IfStmt:
+		if t.Init != nil {
+			held = w.stmt(t.Init, held)
+		}
+		w.expr(t.Cond, held, false)
+		w.block(t.Body.List, held)
+		if t.Else != nil {
+			w.stmt(t.Else, held)
+		}
+	case *ast.BlockStmt:
+		return w.block(t.List, held)
+	case *ast.ForStmt:
+		if t.Init != nil {
+			held = w.stmt(t.Init, held)
+		}
+		if t.Cond != nil {
+			w.expr(t.Cond, held, false)
+		}
+		w.block(t.Body.List, held)
+	case *ast.RangeStmt:
+		w.expr(t.X, held, false)
+		if ty := w.typeOf(t.X); ty != "" {
+			if id, ok := t.Value.(*ast.Ident); ok && id != nil {
+				w.env[id.Name] = ty
+			}
+		}
+		w.block(t.Body.List, held)
+	case *ast.SwitchStmt:
+		if t.Init != nil {
+			held = w.stmt(t.Init, held)
+		}
+		if t.Tag != nil {
+			w.expr(t.Tag, held, false)
+		}
+		for _, c := range t.Body.List {
+			cc := c.(*ast.CaseClause)
+			for _, e := range cc.List {
+				w.expr(e, held, false)
+			}
+			w.block(cc.Body, held)
+		}
+	case *ast.TypeSwitchStmt:
+		if as, ok := t.Assign.(*ast.AssignStmt); ok {
+			for _, r := range as.Rhs {
+				w.expr(r, held, false)
+			}
+		} else if es, ok := t.Assign.(*ast.ExprStmt); ok {
+			w.expr(es.X, held, false)
+		}
+		for _, c := range t.Body.List {
+			w.block(c.(*ast.CaseClause).Body, held)
+		}
+	case *ast.SelectStmt:
+		for _, c := range t.Body.List {
+			cc := c.(*ast.CommClause)
+			if cc.Comm != nil {
+				w.stmt(cc.Comm, held)
+			}
+			w.block(cc.Body, held)
+		}
+	case *ast.DeclStmt:
+		if gd, ok := t.Decl.(*ast.GenDecl); ok {
+			for _, sp := range gd.Specs {
+				if vs, ok := sp.(*ast.ValueSpec); ok {
+					for _, v := range vs.Values {
+						w.expr(v, held, false)
+					}
+					if vs.Type != nil {
+						for _, n := range vs.Names {
+							w.env[n.Name] = baseTypeName(vs.Type)
+						}
+					}
+				}
+			}
+		}
+	case *ast.LabeledStmt:
+		return w.stmt(t.Stmt, held)
+	}
+	return held
+}
+
+func (w *walker) funcLit(fl *ast.FuncLit, held []string) {
+	for _, p := range fl.Type.Params.List {
+		tn := baseTypeName(p.Type)
+		for _, n := range p.Names {
+			w.env[n.Name] = tn
+		}
+	}
+	w.block(fl.Body.List, held)
+}
+
+var atomicMethods = map[string]bool{"Load": true, "Store": true, "CompareAndSwap": true, "Add": true, "Swap": true}
+
+func (w *walker) expr(e ast.Expr, held []string, write bool) {
+	switch t := e.(type) {
+	case nil:
+	case *ast.SelectorExpr:
+		w.record(t, write, held, "plain")
+		w.expr(t.X, held, false)
+	case *ast.CallExpr:
+		// atomic method on a field: x.f.Load()
+		if sel, ok := t.Fun.(*ast.SelectorExpr); ok {
+			if inner, ok := sel.X.(*ast.SelectorExpr); ok && atomicMethods[sel.Sel.Name] {
+				if st := w.typeOf(inner.X); st != "" && w.structs[st] != nil && strings.HasPrefix(w.structs[st].fields[inner.Sel.Name], "atomic.") {
+					w.record(inner, sel.Sel.Name != "Load", held, "atomic")
+					w.expr(inner.X, held, false)
+					for _, a := range t.Args {
+						w.expr(a, held, false)
+					}
+					return
+				}
+			}
+			if l, _ := w.lockCall(t); l != "" {
+				w.record(sel.X, false, held, "lockop")
+				return
+			}
+		}
+		if id, ok := t.Fun.(*ast.Ident); ok && id.Name == "close" && len(t.Args) == 1 {
+			if sel, ok := t.Args[0].(*ast.SelectorExpr); ok {
+				w.record(sel, true, held, "chan-close")
+				w.expr(sel.X, held, false)
+				return
+			}
+		}
+		if sel, ok := t.Fun.(*ast.SelectorExpr); ok {
+			if st := w.typeOf(sel.X); st != "" && w.tracked[st] {
+				callSites = append(callSites, callSite{caller: w.fn, callee: st + "." + sel.Sel.Name, held: append([]string{}, held...)})
+			}
+		}
+		if fl, ok := t.Fun.(*ast.FuncLit); ok {
+			w.funcLit(fl, held)
+		} else {
+			w.expr(t.Fun, held, false)
+		}
+		for _, a := range t.Args {
+			w.expr(a, held, false)
+		}
+	case *ast.FuncLit:
+		// a closure stored for later: called from an unknown context holding nothing
+		w.funcLit(t, nil)
+	case *ast.UnaryExpr:
+		if t.Op == token.ARROW {
+			if sel, ok := t.X.(*ast.SelectorExpr); ok {
+				w.record(sel, false, held, "chan-recv")
+				w.expr(sel.X, held, false)
+				return
+			}
+		}
+		w.expr(t.X, held, write && t.Op == token.AND)
+	case *ast.StarExpr:
+		w.expr(t.X, held, false)
+	case *ast.BinaryExpr:
+		w.expr(t.X, held, false)
+		w.expr(t.Y, held, false)
+	case *ast.ParenExpr:
+		w.expr(t.X, held, write)
+	case *ast.IndexExpr:
+		w.expr(t.X, held, write)
+		w.expr(t.Index, held, false)
+	case *ast.SliceExpr:
+		w.expr(t.X, held, false)
+	case *ast.TypeAssertExpr:
+		w.expr(t.X, held, false)
+	case *ast.KeyValueExpr:
+		w.expr(t.Value, held, false)
+	case *ast.CompositeLit:
+		st := baseTypeName(t.Type)
+		for _, el := range t.Elts {
+			if kv, ok := el.(*ast.KeyValueExpr); ok {
+				if id, ok := kv.Key.(*ast.Ident); ok && w.tracked[st] {
+					*w.accs = append(*w.accs, access{strct: st, field: id.Name, fn: w.fn, line: w.fset.Position(kv.Pos()).Line,
+						write: true, how: "plain", held: append([]string{}, held...), inLiteral: true})
+				}
+				w.expr(kv.Value, held, false)
+			} else {
+				w.expr(el, held, false)
+			}
+		}
+	}
+}
+
+func (w *walker) record(sel ast.Expr, write bool, held []string, how string) {
+	s, ok := sel.(*ast.SelectorExpr)
+	if !ok {
+		return
+	}
+	st := w.typeOf(s.X)
+	if st == "" {
+		// unknown base: only interesting if the field name belongs to a tracked struct and
+		// the base is a plain identifier we could not type (conservative report)
+		if id, ok := s.X.(*ast.Ident); ok {
+			for name, si := range w.structs {
+				_ = name
+				if _, has := si.fields[s.Sel.Name]; has && w.env[id.Name] == "" && !isPackageName(id.Name) {
+					*w.accs = append(*w.accs, access{strct: "?", field: s.Sel.Name, fn: w.fn, line: w.fset.Position(s.Pos()).Line,
+						write: write, how: how, held: append([]string{}, held...)})
+					return
+				}
+			}
+		}
+		return
+	}
+	if !w.tracked[st] || w.structs[st] == nil {
+		return
+	}
+	if _, isField := w.structs[st].fields[s.Sel.Name]; !isField {
+		return // a method
+	}
+	*w.accs = append(*w.accs, access{strct: st, field: s.Sel.Name, fn: w.fn, line: w.fset.Position(s.Pos()).Line,
+		write: write, how: how, held: append([]string{}, held...)})
+}
+
+func isPackageName(n string) bool {
+	switch n {
+	case "tunnelpb", "metadata", "status", "codes", "grpc", "context", "io", "fmt", "errors", "math", "sync", "atomic",
+		"strings", "strconv", "time", "proto", "peer", "reflect", "emptypb", "list", "grpchan", "in", "frame", "f", "opt", "md", "settings":
+		return true
+	}
+	return false
 }
